@@ -93,7 +93,59 @@ theorem new_events_deliver_redo_or_chain_blocks (cfg : Config) (s : FState) (b :
   apply processBlock_new_from cfg s b f
     (fun blk => ∃ u rd j lc, switchSegments cfg s b (triggers cfg s b) = some (u, rd, j) ∧
       computeLongestChain cfg (afterLink s b) b = some lc ∧ ((∃ x ∈ rd, x.blk = blk) ∨ (∃ x ∈ lc, x.blk = blk))) hni hlib
-  intro u rd j lc hsw hc _
+  intro u rd j lc hsw hc _ _
   exact ⟨fun e he => ⟨u, rd, j, lc, hsw, hc, Or.inl ⟨e, he, rfl⟩⟩, fun e he => ⟨u, rd, j, lc, hsw, hc, Or.inr ⟨e, he, rfl⟩⟩⟩
+
+/-- **the cursor LIB never exceeds the height of a New or Irreversible event** (one incoming block, any handler failure
+    point): a New event carries the LIB the forkable had when the block came in, and the delivered block is *strictly*
+    above it; an Irreversible event carries itself. -/
+theorem cursor_lib_not_above_block (cfg : Config) (s : FState) (P : List Id) (b : Blk) (f : Option Nat) (hI : Inv s P)
+    (hni : s.includeInit = false ∨ s.lastSent.isSome = true ∨ b.id ≠ s.db.libRef.id)
+    (hcl : SentClosed s.db) (hb : WFin b) (hB : HB s.db b) :
+    ∀ e ∈ (processBlock cfg s b f).2.1,
+      (e.step = .new → e.lib = s.db.libRef ∧ e.lib.num < e.blk.num) ∧
+      (e.step = .irreversible → e.lib.num = e.blk.num) := by
+  intro e he
+  have hab := processBlock_new_above_lib cfg s P b f hI hni hcl hb hB e he
+  rcases cursor_lib_of_every_event cfg s P b f hI hni e he with ⟨hs, hl⟩ | ⟨hs, hl⟩ | hs
+  · refine ⟨fun hn => ⟨hl, (by rw [hl]; exact hab hn)⟩, fun hi => ?_⟩
+    rcases hs with hs | hs <;> rw [hs] at hi <;> cases hi
+  · exact ⟨fun hn => (by rw [hs] at hn; cases hn), fun _ => (by rw [hl]; rfl)⟩
+  · exact ⟨fun hn => (by rw [hs] at hn; cases hn), fun hi => (by rw [hs] at hi; cases hi)⟩
+
+/-- **along every history of blocks of one consistent block tree** (hypotheses on the input only, as in
+    `C01.history_discipline_consistent`): in the whole event stream, the cursor LIB of a New event is strictly below the
+    delivered block and the cursor LIB of an Irreversible event is the block itself -/
+theorem history_cursor_lib_not_above_block (cfg : Config) (hnew : cfg.matches .new = true)
+    (hundo : cfg.matches .undo = true) (hirr : cfg.matches .irreversible = true) (U : Id → Option Blk) (hU : UOK U)
+    (h : List Blk) (F : List Id) (s : FState) (P : List Id) (hI : Inv s P) (hJ : Inv2 U F s.db)
+    (hin : ∀ b ∈ h, U b.id = some b) (hL : Props.C01.LibHistOK cfg s h)
+    (hincl : s.includeInit = false ∨ s.lastSent.isSome = true) :
+    ∀ e ∈ (runHistory cfg s h).2,
+      (e.step = .new → e.lib.num < e.blk.num) ∧ (e.step = .irreversible → e.lib.num = e.blk.num) := by
+  induction h generalizing s P F with
+  | nil => intro e he; simp [runHistory] at he
+  | cons b r ih =>
+    have hni : s.includeInit = false ∨ s.lastSent.isSome = true ∨ b.id ≠ s.db.libRef.id := by
+      rcases hincl with h | h
+      · exact Or.inl h
+      · exact Or.inr (Or.inl h)
+    have hbU := hin b (by simp)
+    obtain ⟨P1, F1, _, hI1, hJ1, htip⟩ :=
+      Props.C01.step_discipline_consistent cfg hnew hundo hirr U hU F s P b hI hJ hbU hL.1 hni
+    have h1 := cursor_lib_not_above_block cfg s P b none hI hni
+      (sentClosed_of_inv2 U F s.db hI.wf hI.heights hJ) (hU.wf b.id b hbU) (hb_of_inv2 U hU F s.db hJ b hbU)
+    have h2 := ih F1 _ P1 hI1 hJ1 (fun x hx => hin x (by simp [hx])) hL.2
+      (by rcases hincl with h | h
+          · exact Or.inl (by rw [processBlock_includeInit]; exact h)
+          · rcases htip with ⟨_, hsame⟩ | hsome
+            · exact Or.inr (by rw [hsame]; exact h)
+            · exact Or.inr hsome)
+    rw [Props.C01.runHistory_cons]
+    intro e he
+    simp only [List.mem_append] at he
+    rcases he with he | he
+    · exact ⟨fun hn => ((h1 e he).1 hn).2, (h1 e he).2⟩
+    · exact h2 e he
 
 end BstreamVerif.Props.C04
